@@ -164,7 +164,7 @@ impl Prop for C01 {
     fn rule(&self) -> String {
         "case = (entry point incl. engine / gather settings, retry count, menu); the reference server is in its seed state \
          (all optional parts, 2 players, 2 rules, challenge round, lists split in two). At every receive the menu is: 0 the \
-         well-formed datagram; every proper prefix; every single-byte substitution at every offset with {00,01,02,0A,5C,7F,80,FE,FF}; the valid two-byte UTF-8 character C3 A9 written over every pair of adjacent bytes; \
+         well-formed datagram; every proper prefix; every single-byte substitution at every offset with {00,01,02,0A,5C,7F,80,FE,FF}; the valid two-byte UTF-8 characters C3 A9 and C2 A0 (a blank) written over every pair of adjacent bytes; \
          every decimal number replaced by each of 7 boundary texts; every byte string of length <= 3 (quick) / 4 (thorough) over \
          {00,01,0A,5C,80,C3,FE,FF} appended to each header prefix; format-specific structural extremes; three 65507-byte datagrams; \
          timeout; TCP connects may be refused. X(1) = all executions with one deviation (complete); X(2) over the structural extremes alone (every pair of extremes at any two receives) for GameSpy 1, GameSpy 3 and the master server; thorough adds X(2) with the \
